@@ -287,6 +287,8 @@ func (*Driver) ScanStmts(input string) ([]*migrate.Stmt, error) {
 			MatchBegin:       true,
 			BackslashEscapes: true,
 			HashComments:     true,
+			// Conditional comments hold statements (e.g. in files written by mysqldump).
+			ExecutableComments: true,
 			// The following are not support by MySQL/MariaDB.
 			MatchBeginAtomic: false,
 			MatchDollarQuote: false,
